@@ -1437,6 +1437,10 @@ def gen(tier, rng):
     yield ('pinned', 4, [1, 0, [[1], [1], [2], [5, simple_err(1)], [2], [5, simple_err(2)]]])
     yield ('pinned', 4, [0, 0, [[1], [1], [5, simple_err(1)], [3], [5, simple_err(2)], [2], [5, simple_err(3)]]])
     yield ('pinned', 5, [0, [[simple_err(1, 1), simple_err(2, 2), simple_err(3)], [1, simple_err(9)]]])
+    # F32 (fixed 3f5a30c): a plug-in asked for by a name with a leading period must be a PluginNotFound
+    yield ('pinned', 20, [1, 0, '.bib'])
+    yield ('pinned', 20, [10, 0, '.bib'])
+    yield ('pinned', 20, [11, 0, '.'])
     # F27 inside a history: in non-strict mode the renderer's exception escapes from report_error
     yield ('pinned', 4, [0, 0, [[1], [5, simple_err(1)], [2], [5, [2, '%i passed to int.to.chr$', [1], [0], [0]]], [5, simple_err(3)]]])
     for c in gen_real(quick, rng):
@@ -1709,12 +1713,7 @@ def _sig_F27(kind, fn, arg, detail):
         return bool(m) and any(o[0] == 5 and o[1][0] == int(m.group(1)) and o[1][2] == [1] for o in arg[2])
     return False
 
-def _sig_F32(kind, fn, arg, detail):
-    # a plug-in asked for by a name with a leading period: AssertionError in PluginNotFound.__init__
-    return (kind == 'oracle' and fn == 20 and arg[0] in (1, 10, 11) and S(arg[2]).startswith('.')
-            and 'AssertionError' in str(detail))
-
-KNOWN_SIGNATURES = {'F27': _sig_F27, 'F32': _sig_F32}
+KNOWN_SIGNATURES = {'F27': _sig_F27}      # F32 fixed (3f5a30c): signature dropped, its inputs stay in the plugin_select stream
 
 def run_bst(prog):
     """run a .bst program through the real interpreter; returns the PybtexError raised or None"""
@@ -1729,16 +1728,6 @@ def run_bst(prog):
     return None
 
 def replay_known(finding):
-    if finding['id'] == 'F32':
-        from pybtex.plugin import find_plugin
-        from pybtex.exceptions import PybtexError
-        try:
-            find_plugin('pybtex.database.input', '.bib')
-            return None
-        except PybtexError:
-            return None
-        except Exception as ex:
-            return "find_plugin('pybtex.database.input', '.bib') raises %s" % type(ex).__name__
     if finding['id'] == 'F27':
         from pybtex.errors import format_error
         e = run_bst(finding['bst'])
